@@ -60,7 +60,7 @@ def run_case(case):
     modes = []
     if not case["target"].get("blobs"):
         modes.append(("vector", None))
-    modes.append(("pool", dict(workers=case["W"], death_at_map=case.get("death_at_map"))))
+    modes.append(("pool", dict(workers=case["W"], death_at_map=case.get("death_at_map"), lazy=case.get("lazy"))))
     modes.append(("poolint", dict(workers=case["Wint"])))
     order_digests = set()
     for mode, pool in modes:
@@ -68,6 +68,8 @@ def run_case(case):
             continue
         c2 = case if mode == "pool" else {k: v for k, v in case.items() if k != "death_at_map"}
         c2 = dict(c2)
+        if case.get("with_args"):
+            c2["ll_args"] = True  # the non-serial twin receives its likelihood through log_likelihood_args / kwargs
         if case.get("scenario") == "pool_death" and mode == "pool":
             c2["scenario"] = "plain"
         B = one(c2, mode, pool)
@@ -118,6 +120,8 @@ def cases(seed, tier):
         c["Wint"] = r.choice([1, 2, 3, 4])
         if c["scenario"] == "pool_death":
             c["death_at_map"] = r.randrange(1, 25)
+        c["lazy"] = r.random() < 0.3
+        c["with_args"] = r.random() < 0.3
         out.append(c)
     return out
 
